@@ -25,6 +25,11 @@ func (x *Exec) doCall(fr *frame, in *Instr, ops []lval) lval {
 	default:
 		cv := x.operand(fr, calleeV)
 		x.ub("poison-callee", "call through a poison function pointer", cv.poison)
+		if onlyUninit(tt(cv)) {
+			// the function pointer was read from memory nobody initialised
+			x.ub("uninit-callee", "call through a function pointer read from uninitialised memory", smt.True)
+			x.M.EndPath("ub")
+		}
 		addr := x.concretize(tt(cv), "callee")
 		if addr < core.NilLimit {
 			panic(&GoPanic{Class: "nilptr", Msg: "call of nil function pointer"})
@@ -79,6 +84,9 @@ func (x *Exec) doCall(fr *frame, in *Instr, ops []lval) lval {
 	x.Trace = append(x.Trace, Event{Name: name, Args: av})
 	if in.Ty.Kind == TVoid {
 		return lval{}
+	}
+	if x.ExternValue != nil {
+		return clean(x.ExternValue(name, in.Ty))
 	}
 	return clean(x.undefNamed(in.Ty, "ext."+name))
 }
@@ -215,4 +223,32 @@ func (x *Exec) libc(name string, in *Instr, a []Value) (Value, bool) {
 		return nil, true
 	}
 	return nil, false
+}
+
+// onlyUninit: the term is built from nothing but bytes of uninitialised heap
+// memory (AllocU without a store).
+func onlyUninit(t *smt.Term) bool {
+	seen := map[int]bool{}
+	n := 0
+	var rec func(t *smt.Term) bool
+	rec = func(t *smt.Term) bool {
+		if seen[t.ID] {
+			return true
+		}
+		seen[t.ID] = true
+		switch t.Op {
+		case smt.OVar:
+			n++
+			return strings.HasPrefix(t.Name, "AllocU[")
+		case smt.OConcat, smt.OExtract:
+			for _, a := range t.Args {
+				if !rec(a) {
+					return false
+				}
+			}
+			return true
+		}
+		return false
+	}
+	return rec(t) && n > 0
 }
